@@ -307,7 +307,10 @@ P('C14', claimed=True, level='other', contracts=['seq_event_keys', 'seq_ppar', '
               'from the resolved server (detuned frequency in place before the parameters are taken), _mono_on sends one '
               '/s_new bundle at the latency for that PREPARED id, _mono_set one /n_set bundle for the same node with '
               '(name, resolved value) per mono parameter in order (loop invariant), _mono_off a gate-off (/n_set id gate '
-              'value) or /n_free for the same node at latency + delay. Bounded: key resolution compared with the documented chains '
+              'value) or /n_free for the same node at latency + delay; Pmono._embed_mono: the first event is a _mono_on prepared '
+              'with the instrument and a _mono_off carrying its kept keys is registered for clean-up, every later event is a '
+              '_mono_set given the SAME server, node id and parameter names, and when a key stream ends the clean-up runs once '
+              '(loop invariant over a ghost "node exists" state). Bounded: key resolution compared with the documented chains '
               'for all key subsets x 3 values x 3 scales on the real Scale/Tuning classes; played events and '
               'event stream players checked on the NRT score (one /s_new at logical time + latency with fresh '
               'id and the defined controls, gate-off at + sustain iff gated, rests send nothing, timelines of '
